@@ -18,6 +18,7 @@ import (
 	"path/filepath"
 	"regexp"
 	"sort"
+	"strconv"
 	"strings"
 	"sync"
 )
@@ -113,8 +114,42 @@ func (h *HintDB) Save() error {
 	return nil
 }
 
-func lineHash(l string) string {
+var reIdent = regexp.MustCompile(`[A-Za-z_][A-Za-z0-9_.$]*`)
+
+// normLine makes an assertion line independent of the numbering of SSA temporaries, heap versions and fresh names:
+// every identifier that contains a digit is replaced by $k, k being the order of its first appearance in the line.
+// An inserted statement renumbers everything after it; the normalised text of the unaffected hypotheses stays the
+// same, so recorded hints keep applying. Two different lines with the same shape get the same hash, which only makes
+// a hint slice a little larger.
+func normLine(l string) string {
+	idx := map[string]int{}
+	return reIdent.ReplaceAllStringFunc(l, func(id string) string {
+		hasDigit := false
+		for i := 0; i < len(id); i++ {
+			if id[i] >= '0' && id[i] <= '9' {
+				hasDigit = true
+				break
+			}
+		}
+		if !hasDigit {
+			return id
+		}
+		k, ok := idx[id]
+		if !ok {
+			k = len(idx) + 1
+			idx[id] = k
+		}
+		return "$" + strconv.Itoa(k)
+	})
+}
+
+func rawHash(l string) string {
 	s := sha256.Sum256([]byte(l))
+	return hex.EncodeToString(s[:8])
+}
+
+func lineHash(l string) string {
+	s := sha256.Sum256([]byte(normLine(l)))
 	return hex.EncodeToString(s[:6])
 }
 
